@@ -106,12 +106,15 @@ func (c *client) pager(ctx context.Context, initialReq *ocirequest.Request, pars
 			yield("", err)
 			return
 		}
+		// seen holds the pages requested so far (host and request URI).
+		seen := make(map[string]bool)
 		for {
 			resp, err := c.do(req)
 			if err != nil {
 				yield("", err)
 				return
 			}
+			seen[req.URL.Host+req.URL.RequestURI()] = true
 			items, err := parseResponse(resp)
 			resp.Body.Close()
 			if err != nil {
@@ -141,10 +144,13 @@ func (c *client) pager(ctx context.Context, initialReq *ocirequest.Request, pars
 				yield("", fmt.Errorf("invalid Link header in response: %v", err))
 				return
 			}
-			if nextReq.URL.RequestURI() == req.URL.RequestURI() && (nextReq.URL.Host == "" || nextReq.URL.Host == req.URL.Host) {
-				// The registry has sent us back to where we've just been:
-				// following it would go on forever.
-				yield("", fmt.Errorf("listing is making no progress: the next page is the page just fetched (%v)", req.URL))
+			if nextReq.URL.Host == "" {
+				nextReq.URL.Host = req.URL.Host
+			}
+			if key := nextReq.URL.Host + nextReq.URL.RequestURI(); seen[key] {
+				// The registry has sent us back to a page we've already
+				// fetched: following it would go on forever.
+				yield("", fmt.Errorf("listing is making no progress: page %v has been fetched already", nextReq.URL))
 				return
 			}
 			req = nextReq
